@@ -23,6 +23,7 @@ mod c17_cfg;
 mod c17_real;
 mod c06;
 mod c15;
+mod c11p;
 mod rng;
 
 use std::collections::HashMap;
@@ -85,6 +86,7 @@ fn main() {
         "binding" => c06::main(&args),
         "malformed" => c15::main(&args),
         "malformed-worker" => c15::worker_main(&args),
+        "poseidonctl" => c11p::main(&args),
         _ => {
             eprintln!("unknown subcommand {cmd}");
             std::process::exit(2);
